@@ -33,7 +33,7 @@ Absent == -1
 Rank(id) == CHOOSE i \in DOMAIN IdOrder : IdOrder[i] = id
 TRank(t) == CHOOSE i \in DOMAIN TopicOrder : TopicOrder[i] = t
 
-MatchKinds == {"none", "changed", "warn", "critchanged", "never"}
+MatchKinds == {"none", "changed", "warn", "critchanged", "never", "tagA", "tagAwarn"}
 NoCfg == [topic |-> "", kind |-> "none", match |-> "none", targets |-> <<>>]
 
 VARIABLES
@@ -52,7 +52,7 @@ VARIABLES
 
 vars == <<events, sorted, collected, reg, hcfg, queue, seen, pc, pend, updLog, sent, n, nreg>>
 
-Event(t, id, lvl, prev, src, pub) == [topic |-> t, id |-> id, lvl |-> lvl, prev |-> prev, src |-> src, pub |-> pub, cnt |-> 0]
+Event(t, id, lvl, prev, src, pub) == [topic |-> t, id |-> id, lvl |-> lvl, prev |-> prev, src |-> src, pub |-> pub, cnt |-> 0, tag |-> "none"]
 
 (* The list the code keeps: IDs present, by level descending then ID ascending. *)
 Before(ev, a, b) == \/ ev[a] > ev[b]
@@ -69,6 +69,8 @@ Matches(m, e) ==
       [] m = "warn"        -> e.lvl >= 2
       [] m = "critchanged" -> e.lvl = 3 /\ e.lvl # e.prev
       [] m = "never"       -> FALSE
+      [] m = "tagA"        -> e.tag = "a"                  \* "host" == 'a'; an event without the tag is an evaluation error: not delivered
+      [] m = "tagAwarn"    -> e.tag = "a" /\ e.lvl >= 2
 
 (* ---- the state transformer of one (nested or top-level) collect ---- *)
 St == [ev : events, so : sorted, co : collected, qu : queue, ul : updLog, se : sent]
